@@ -305,6 +305,53 @@ def s5c(led, rid, ctx):
     led.floor(rid, "watcher registrations", n, 2)
 
 
+def s16(led, rid, ctx):
+    """PAIR-LOOP: all_different posts x_i != x_j for every unordered pair i < j exactly"""
+    lib = ctx.lib
+    fs = [f for d, f in lib.fns.items() if d.endswith("constraints::all_different::all_different")]
+    if len(fs) != 1:
+        raise AnchorMissing("constraints::all_different")
+    f = fs[0]
+    R = resolver(f)
+    ranges = []
+    for b, i, st in aggregates(f, None):
+        e = R.rvalue(st["rv"])
+        if e.k == "agg" and (e.a or "").split("::")[-1] in ("Range", "RangeInclusive"):
+            ranges.append(e)
+    outer = [r for r in ranges if peel(r.c[0], calls=None).k == "const" and peel(r.c[0], calls=None).a == 0
+             and r.a.split("::")[-1] == "Range"]
+    inner = [r for r in ranges if r not in outer]
+    ok = len(outer) == 1 and len(inner) == 1
+    why = "expected one loop from 0 and one nested loop (found %d ranges)" % len(ranges)
+    if ok:
+        o, n_ = outer[0], inner[0]
+        st_ = peel(n_.c[0], calls=None)
+        from_outer = lambda x: any(y.k == "agg" and y is not n_ and peel(y.c[0], calls=None).k == "const"
+                                   for y in x.walk()) and any(c.name == "next" for c in x.calls())
+        ends_ok = show(peel(o.c[1], calls=None)) == show(peel(n_.c[1], calls=None)) and \
+            any(c.name == "len" for c in o.c[1].calls()) and n_.a.split("::")[-1] == "Range"
+        start_ok = st_.k == "binop" and st_.a == "Add" and peel(st_.c, calls=None).k == "const" and \
+            peel(st_.c, calls=None).a == 1 and from_outer(st_.b)
+        ok = ends_ok and start_ok
+        why = "the inner loop runs over %s (it must run from i + 1 to the number of variables)" % show(n_)[:120]
+    led.check(ok, rid, "all_different:pairs-i<j", f.span, "for i in 0..n, for j in i+1..n",
+              "all_different: %s: a pair of variables is skipped (two variables may then be equal) or a variable "
+              "is required to differ from itself" % why)
+    ne = f.calls_named("binary_not_equals")
+    ok2 = False
+    if len(ne) == 1 and ok:
+        idx = []
+        for a_ in ne[0].args:
+            e = R.operand(a_)
+            ls = [pr["index"] for x in e.walk() if x.k == "proj" for pr in (x.b or []) if "index" in pr]
+            if len(ls) == 1:
+                ie = R.operand({"copy": {"local": ls[0], "proj": []}})
+                idx.append("inner" if "Add" in show(ie) else "outer")
+        ok2 = sorted(idx) == ["inner", "outer"]
+    led.check(ok2, rid, "all_different:posts-x_i!=x_j", f.span, "binary_not_equals(x[i], x[j])",
+              "all_different does not post binary_not_equals on the two loop indices")
+
+
 def s_level(led, rid, ctx):
     res = C10.explore(ctx.lib)
     it, apis, B, trans, guards = res
@@ -357,3 +404,4 @@ def _u5b(led, rid, ctx):
     run_rule(led, "S5c", "a watcher registration is skipped only for an identical (propagator, local id) pair", s5c, ctx)
     from . import C09 as _C09
     run_rule(led, "S15", "LINFORM: the arithmetic constraint builders mean what they say (shared with C09-R10)", _C09.r10, ctx)
+    run_rule(led, "S16", "PAIR-LOOP: all_different posts x_i != x_j for every pair i < j", s16, ctx)
